@@ -161,7 +161,7 @@ GEN_FILES = {"cont.": "Cont.lean", "cmp.": "Cmp.lean", "det.": "Det.lean", "clea
              "opt": "OptionTable.lean", "appearance.": "Appearance.lean", "prob.": "Prob.lean",
              "dispatch.": "ClassTable.lean", "wiring.": "PlotWiring.lean",
              "axis.": "Axis.lean", "abcd.": "Abcd.lean",
-             "subset.": "Subset.lean", "brier.": "Brier.lean", "texthdr.": "TextHeader.lean", "agg.": "Agg.lean"}
+             "subset.": "Subset.lean", "brier.": "Brier.lean", "texthdr.": "TextHeader.lean", "agg.": "Agg.lean", "datefilter.": "DateFilter.lean"}
 
 
 def gen_files_for(prefixes):
